@@ -40,6 +40,7 @@ type HarnessSpec struct {
 	ExpectPanics []string            `json:"expect_panics"`
 	AllowGo      []string            `json:"allow_go"`
 	MapOrders    bool                `json:"map_orders"`
+	ConcretizeDivisors bool          `json:"concretize_divisors"`
 	Limits       map[string]int      `json:"limits"`
 	QueryMs      int                 `json:"query_timeout_ms"`
 	Solver       string              `json:"solver"`
@@ -293,6 +294,7 @@ func cmdCheck(args []string) {
 				AllowGo:      h.AllowGo,
 				ExpectPanics: h.ExpectPanics,
 				MapOrders:    h.MapOrders,
+				ConcretizeDivisors: h.ConcretizeDivisors,
 				Params:       ts.Params,
 				Lim:          lim,
 				Trace:        *trace,
@@ -590,9 +592,27 @@ func conclude(id, tier string, seed int, props *Props, outs []harnessOutcome, sm
 		"exhaustive":        len(inconclusive) == 0,
 		"explanation":       "bounded symbolic execution of the current /repo SSA; unsat on every path obligation = holds for all inputs within the stated bounds",
 	}
+	assumptions := []string{
+		"go/ssa (x/tools v0.29.0) is a faithful IR of /repo's current source; the gosym executor implements Go semantics on it (cross-checked by native replay of every reported counterexample)",
+		"z3 4.8.12 / cvc5 1.0 / z3 5.1.0 answers are sound; any (error, unknown or timeout is reported as inconclusive, never as success",
+		"package initialisers outside the per-property whitelist are not executed; touching a global that has an initialiser there aborts the check as inconclusive",
+		"sync primitives have single-thread semantics; goroutines are not run (go statements abort the check unless listed)",
+	}
+	assumptions = append(assumptions, props.Assumptions...)
+	for _, ho := range outs {
+		for _, a := range ho.Spec.Assumptions {
+			assumptions = append(assumptions, ho.Spec.Name+": "+a)
+		}
+	}
+	stubNames := []string{}
+	for k, v := range props.Stubs {
+		stubNames = append(stubNames, k+" => "+v)
+	}
+	sort.Strings(stubNames)
+	cov["stubs"] = stubNames
 	ev := map[string]interface{}{
 		"property_id": id, "tier": tier, "seed": seed, "level": "model_checking",
-		"coverage": cov, "assumptions": props.Assumptions, "wall_s": wall, "violations": violations,
+		"coverage": cov, "assumptions": assumptions, "wall_s": wall, "violations": violations,
 	}
 	if writeEv && !partial {
 		eb, _ := json.MarshalIndent(ev, "", " ")
